@@ -4,6 +4,7 @@ import (
 	"bytes"
 	"context"
 	"fmt"
+	"io"
 	"net"
 	"os"
 	"path/filepath"
@@ -299,6 +300,25 @@ func (e *env) e2eShell() {
 	}
 }
 
+// readChunkedAll reads until EOF with caller buffers of the given sizes in turn.
+func readChunkedAll(r io.Reader, sizes []int) ([]byte, error) {
+	var out []byte
+	for i := 0; ; i++ {
+		buf := make([]byte, sizes[i%len(sizes)])
+		k, err := r.Read(buf)
+		out = append(out, buf[:k]...)
+		if err == io.EOF {
+			return out, nil
+		}
+		if err != nil {
+			return out, err
+		}
+		if len(out) > 64<<20 {
+			return out, fmt.Errorf("runaway reader")
+		}
+	}
+}
+
 func (e *env) e2eFile() {
 	a, d := e.mesh.Nodes[0].Agent, e.mesh.Nodes[2].Agent
 	dir := filepath.Join(e.scratch, "files")
@@ -350,6 +370,29 @@ func (e *env) e2eFile() {
 			}
 			e.record(r2, false)
 			e.c.Case(fmt.Sprintf("L2/file-down/%d", n), n > 0, r2)
+			e.coq = append(e.coq, "c07_skip")
+		}
+		// third receiver: the streaming download used by the HTTP API
+		if r.OK {
+			r3 := caseRec{Layer: "L2", Path: "file-down-stream", Blocks: []int{n}}
+			res, err := a.DownloadFileStream(ctx, d.ID(), remote, health.TransferOptions{})
+			var got3 []byte
+			if err == nil {
+				got3, err = readChunkedAll(res.Reader, []int{e.c.Rand.Pick(1, 100, 4096), e.c.Rand.Pick(16255, 16256, 16257, 65536)})
+				if res.Close != nil {
+					res.Close()
+				}
+			}
+			if err != nil {
+				r3.WriteErr = err.Error()
+			}
+			r3.Got = len(got3)
+			r3.OK = err == nil && bytes.Equal(got3, content)
+			if !r3.OK {
+				e.c.Fail("bytes-not-delivered:file-down-stream", fmt.Sprintf("streaming download of %d bytes: err=%v, %d bytes read", n, err, len(got3)), r3)
+			}
+			e.record(r3, false)
+			e.c.Case(fmt.Sprintf("L2/file-down-stream/%d", n), n > 0, r3)
 			e.coq = append(e.coq, "c07_skip")
 		}
 		cancel()
